@@ -218,11 +218,48 @@ def dirFileSwapInv (fs : FS) (a : String) : Bool :=
   | .apply range => dirFileSwap fs inv.cfg range
   | _ => false
 
+/-- the paths the file patches of the range name (both names, stripped) -/
+def rangeKeys (fs : FS) (cfg : Cfg) (range : List Series.Entry) : List Key :=
+  range.flatMap (fun entry =>
+    match patchKey cfg entry.name with
+    | none => []
+    | some pk =>
+      match fs.readFile pk with
+      | .error _ => []
+      | .ok (bytes, _) =>
+        match Parse.parsePatch bytes entry.strip false with
+        | .error _ => []
+        | .ok patch => patch.fps.flatMap (fun fp =>
+            ((match fp.old with | some n => [n] | none => []) ++ (match fp.new with | some n => [n] | none => [])).filterMap safeKey))
+
+/-- Class of the known finding `empty-dir-kept`: the tree the invocation starts from has, outside `.pc`, a directory
+without any regular file in or below it, and some file patch of the range names a path below that directory.  If the
+invocation creates a file there and a later patch of the same invocation removes it again, nothing is ever written
+and the directory stays; two invocations write the file, remove it and — like GNU patch — remove the directories the
+removal left empty, the old empty one included.  The difference between the implementation's tree and the
+specification's is confined to such directories (and what lies below them: a reject file is written only if its
+directory is there). -/
+def emptyDirKept (fs : FS) (cfg : Cfg) (range : List Series.Entry) (implT specT : FS) : Bool :=
+  let keys := rangeKeys fs cfg range
+  let ds := fs.nodes.filterMap (fun (k, n) =>
+    if n == Node.dir && k.head? != some [46, 112, 99] &&
+       !fs.nodes.any (fun (k', n') => n' != Node.dir && k.isPrefixOf k') &&
+       keys.any (fun key => k.isPrefixOf key && k != key) then some k else none)
+  let outside := fun (t : FS) => { t with nodes := t.nodes.filter (fun (k, _) => !ds.any (fun d => d.isPrefixOf k)) }
+  !cfg.dryRun && ds.any (fun d => implT.isDir d && !specT.isDir d) && renderTree (outside implT) == renderTree (outside specT)
+
+def emptyDirKeptInv (fs : FS) (a : String) (implT specT : FS) : Bool :=
+  let inv := parseArgs (if a == "-" then [] else a.splitOn " ") ()
+  match plan inv.cfg fs with
+  | .apply range => emptyDirKept fs inv.cfg range implT specT
+  | _ => false
+
 /-- the class of known finding the invocation falls in, if its outcome differs from the specification.
 `refused`: the implementation exited with status 1 and left the tree as it was. -/
-def knownClass (fs : FS) (a : String) (refused : Bool) : Option String :=
+def knownClass (fs : FS) (a : String) (refused : Bool) (implT specT : FS) : Option String :=
   if termBrokenInv fs a then some "unterminated-line-mid-file"
   else if refused && dirFileSwapInv fs a then some "dir-file-swap"
+  else if emptyDirKeptInv fs a implT specT then some "empty-dir-kept"
   else none
 
 /-- `pushSpec` evaluated against the implementation: starting from the tree the implementation left
@@ -239,7 +276,7 @@ def specVerdict (fs0 : FS) (invs impl : List String) : String := Id.run do
       else if inv.badLate && (match plan inv.cfg fs with | .apply _ => true | _ => false) then { exit := 1, fs }
       else Spec.pushSpec inv.cfg fs
     let implTree := fieldOf r "tree"
-    let known := knownClass fs a (fieldOf r "exit" == "1" && implTree == renderTree fs)
+    let known := knownClass fs a (fieldOf r "exit" == "1" && implTree == renderTree fs) (parseTree implTree) sp.fs
     if fieldOf r "exit" != toString sp.exit then
       return (match known with | some c => s!"KNOWN:{c}" | none => s!"FAIL:exit(spec={sp.exit})")
     if sp.ioError then
